@@ -8,6 +8,7 @@ On top of the base translator:
   a[-1, :].size   the number of rays in the batch: an explicit integer input `<a>.size` (the harness passes
                the real batch size, so `if ....size != 1: raise` keeps its meaning)
   x=None       a parameter declared statically None is not an input (NaN stands for its dead value)
+  vx, vy = f(..)  a call listed in the spec's `opaque_pairs` returns a pair of number inputs  f().e0, f().e1
   field        a parameter declared kind 'tuple2' is the pair of number inputs field.e0, field.e1
 Everything else falls through to the base class (and fails closed there)."""
 import ast
@@ -43,6 +44,20 @@ class C06Kernel(Kernel):
                 self.types[d + '.size'] = 'int'
                 return self.get_input(d + '.size')
         return super().expr(node, env)
+
+    def call(self, node, env):
+        d = self.dotted_of(node.func)
+        if d is not None and d in self.spec.get('opaque_pairs', ()):
+            return V('tuple', items=[Kernel.get_input(self, d + '().e0'), Kernel.get_input(self, d + '().e1')])
+        if d is not None and '.' in d:
+            root, rest = d.split('.', 1)
+            if root in env and env[root].kind == 'obj' and env[root].path != root:
+                full = env[root].path + '.' + rest          # method of an aliased object: material.n(w)
+                opaque = self.spec.get('opaque_calls', {})
+                if full in opaque:
+                    self.types.setdefault(full + '()', opaque[full])
+                    return self.get_input(full + '()')
+        return super().call(node, env)
 
     def get_input(self, dotted):
         if self.spec.get('static', {}).get(dotted) == 'none' and dotted in getattr(self, 'params', ()):
